@@ -463,7 +463,7 @@ def csv_cell(v):
     return s
 
 
-STR_POOL = ['True', 'FALSE', 'TRUE', 'False', 'Null', 'NULL', 'None', 'NaN', 'Infinity', '0x10', 'abc', 'x y', 'a,b', 'say "hi"', '2024-02-30', '2024-13-01', '12abc', 'true-ish', 'é', 'a.0,', '1.2.3', 'nan', 'T', '2024-01-01T99:00:00Z', '']
+STR_POOL = ['abc  ', 'tail\t', '\tlead', 'mid  dle', 'True', 'FALSE', 'TRUE', 'False', 'Null', 'NULL', 'None', 'NaN', 'Infinity', '0x10', 'abc', 'x y', 'a,b', 'say "hi"', '2024-02-30', '2024-13-01', '12abc', 'true-ish', 'é', 'a.0,', '1.2.3', 'nan', 'T', '2024-01-01T99:00:00Z', '']
 
 
 def gen_typed_table(rnd):
